@@ -602,7 +602,10 @@ func checkC10Dispatch(r *core.Run, p *core.Program, a *analysis) {
 					return true
 				}
 				if rn := recvNamed(cal); rn != nil && rn.Obj() == ctxT && cal.Name() == "NotifyNewObject" && !firstCount.IsValid() {
-					firstCount = call.Pos()
+					// a count inside a branch that returns is on another path than what follows the branch
+					if !insideLeavingBranch(f.Decl.Body, call) {
+						firstCount = call.Pos()
+					}
 				}
 				if rn := recvNamed(cal); rn != nil && rn.Obj().Name() == "RulesEventReceiver" && strings.HasPrefix(cal.Name(), "On") && cal != f.Obj {
 					if sel, ok := call.Fun.(*ast.SelectorExpr); ok {
@@ -637,4 +640,39 @@ func checkC10Dispatch(r *core.Run, p *core.Program, a *analysis) {
 			fmt.Sprintf("event %s must call NotifyNewObject(%s) once, before the rule; found %v", ev, strings.Join(wantNotify, ","), notify))
 	}
 	r.Floor("C10.dispatch", "receiver events classified", n, 40)
+}
+
+// insideLeavingBranch: the node lies in the body (or else block) of an if statement, or in a case clause, whose last
+// statement is a return: nothing after that statement runs on the node's path.
+func insideLeavingBranch(body *ast.BlockStmt, target ast.Node) bool {
+	res := false
+	var stack []ast.Node
+	ast.Inspect(body, func(n ast.Node) bool {
+		if n == nil {
+			stack = stack[:len(stack)-1]
+			return true
+		}
+		stack = append(stack, n)
+		if n != target {
+			return true
+		}
+		for i := 1; i < len(stack); i++ {
+			var list []ast.Stmt
+			switch x := stack[i].(type) {
+			case *ast.BlockStmt:
+				if _, isIf := stack[i-1].(*ast.IfStmt); isIf {
+					list = x.List
+				}
+			case *ast.CaseClause:
+				list = x.Body
+			}
+			if len(list) > 0 {
+				if _, isRet := list[len(list)-1].(*ast.ReturnStmt); isRet {
+					res = true
+				}
+			}
+		}
+		return true
+	})
+	return res
 }
